@@ -12,8 +12,12 @@ ROOT = os.path.dirname(os.path.dirname(os.path.abspath(__file__)))
 REPO = os.environ.get("VERIF_REPO", "/repo")
 WORK = os.environ.get("VERIF_WORK") or os.path.join(ROOT, "work")   # scratch; VERIF_WORK lets two runs of one check coexist
 HARNESS = os.path.join(ROOT, "harness")
-VDRIVER = os.path.join(HARNESS, "target", "release", "vdriver")
-CLI_TARGET = os.path.join(ROOT, "target", "cli")
+# VERIF_BUILD lets a trial run (a seeded change applied to /repo) build into its own directories, so that a long run
+# started from the unchanged tree keeps using its own binaries
+_BUILD = os.environ.get("VERIF_BUILD")
+HARNESS_TARGET = os.path.join(_BUILD, "harness") if _BUILD else os.path.join(HARNESS, "target")
+VDRIVER = os.path.join(HARNESS_TARGET, "release", "vdriver")
+CLI_TARGET = os.path.join(_BUILD, "cli") if _BUILD else os.path.join(ROOT, "target", "cli")
 CLI = os.path.join(CLI_TARGET, "release", "bindgen")
 EVIDENCE = os.environ.get("VERIF_EVIDENCE") or os.path.join(ROOT, "evidence")
 REPLAY = os.path.join(ROOT, "replay")
@@ -66,7 +70,7 @@ def build_vdriver():
     if not os.path.exists(lock_dst):
         shutil.copy(lock_src, lock_dst)
     t0 = time.time()
-    p = sh(["cargo", "build", "--release", "--offline", "--features", "hooks"], cwd=HARNESS)
+    p = sh(["cargo", "build", "--release", "--offline", "--features", "hooks", "--target-dir", HARNESS_TARGET], cwd=HARNESS)
     if p.returncode != 0:
         sys.stdout.write(p.stderr.decode(errors="replace")[-4000:])
         die_machinery("vdriver (harness linked against /repo/bindgen, hooks on) failed to build")
